@@ -23,7 +23,11 @@ type idents struct {
 func genC06(r *Rng, tier string, idx int) *Plan {
 	p := &Plan{SchedSeed: r.U64()}
 	p.Spec = genSpec(r, genOpts{Filters: 1, NoDiscovery: true, NoFetch: true, ForceStore: "memory"})
-	p.Mode = []string{"replay", "same-instant", "time-window", "stale-cookie", "restart"}[idx%5]
+	p.Mode = []string{"replay", "same-instant", "time-window", "stale-cookie", "restart", "concurrent"}[idx%6]
+	if p.Mode == "concurrent" {
+		p.Spec.HandlerMode = r.Bool()
+		p.Policy = r.Intn(2)
+	}
 	// the request instant: somewhere in the first simulated day, at nanosecond granularity
 	p.Ops = []Op{{ID: 1, Kind: "at", D: r.Intn(86400), Args: map[string]string{"ns": fmt.Sprint(r.Intn(1000000000))}},
 		{ID: 2, Kind: "window", D: []int{50, 200, 1000}[r.Intn(3)]}, // +- ns known to the attacker
@@ -131,6 +135,49 @@ func runC06(p *Plan) *Result {
 			}
 		}
 		res.Probes["same-instant-logins"] += k
+	case "concurrent":
+		// k first requests handled concurrently (seeded interleaving): no identifier may share a long run of
+		// characters with an identifier handed to another client
+		var seq []idents
+		inBubble(func() {
+			w := NewWorld(p.Spec, p.SchedSeed, p.Policy, nil)
+			defer w.Close()
+			w.Boot()
+			if w.Rep.BootErr != nil {
+				return
+			}
+			time.Sleep(at)
+			a := w.NewAgents()
+			var par []Op
+			for i := 0; i < k+1; i++ {
+				par = append(par, Op{ID: 10 + i, Kind: "begin", B: i, Path: "/x"})
+			}
+			a.Par(par)
+			f := w.Filters[0]
+			for _, rec := range w.Checks {
+				if rec.Class == "redirect-idp" && len(rec.SetCookie) == 1 {
+					pc := parseSetCookie(rec.SetCookie[0])
+					ar := f.IdP.parseAuth(rec.Location)
+					seq = append(seq, idents{SID: pc.Value, State: ar.Param("state"), Nonce: ar.Param("nonce"), Challenge: ar.Param("code_challenge"), OK: pc.Value != ""})
+				}
+			}
+		})
+		evals = len(seq)
+		for i := 0; i < len(seq) && len(res.Viol) == 0; i++ {
+			for j := 0; j < len(seq) && len(res.Viol) == 0; j++ {
+				if i == j {
+					continue
+				}
+				for _, x := range []string{seq[i].SID, seq[i].State, seq[i].Nonce} {
+					for _, y := range []string{seq[j].SID, seq[j].State, seq[j].Nonce} {
+						if n := commonRun(x, y); n >= 12 {
+							viol("identifiers-of-different-clients-overlap", fmt.Sprintf("concurrently handled logins %d and %d: an identifier of one shares a run of %d characters with an identifier of the other", i, j, n))
+						}
+					}
+				}
+			}
+		}
+		res.Probes["concurrent-logins"] += evals
 	case "restart":
 		// a login is restarted by presenting the id of the still-pending one: everything must be fresh
 		var seq []idents
@@ -210,4 +257,21 @@ func runC06(p *Plan) *Result {
 	res.SimSecs = at.Seconds() * float64(evals)
 	res.Summary = fmt.Sprintf("mode=%s instant=%v window=+-%dns candidates=%d", p.Mode, at, window, evals)
 	return res
+}
+
+// commonRun returns the length of the longest common substring at equal or different offsets.
+func commonRun(a, b string) int {
+	best := 0
+	for i := 0; i < len(a); i++ {
+		for j := 0; j < len(b); j++ {
+			n := 0
+			for i+n < len(a) && j+n < len(b) && a[i+n] == b[j+n] {
+				n++
+			}
+			if n > best {
+				best = n
+			}
+		}
+	}
+	return best
 }
